@@ -23,7 +23,8 @@ class SimCase:
     """One abstract case: candle symbols, resting orders, optional reaction order."""
 
     def __init__(self, order_prices: List[str], reaction: Optional[Tuple[int, str]] = None,
-                 inactive: Optional[List[int]] = None):
+                 inactive: Optional[List[int]] = None, extra_cons=()):
+        self.extra_cons = list(extra_cons)  # additional ordering constraints (symmetry breaking)
         self.order_prices = order_prices          # atom names of resting order prices
         self.reaction = reaction                  # (index of fill that triggers it, atom name of its price)
         self.inactive = inactive or []            # indices of resting orders that are already cancelled
@@ -77,10 +78,12 @@ def build(repo: Repo, case: SimCase, samples: List[Dict[str, Fraction]], decisio
         fills.append(o)
         it.event("fill", o.name, position.attrs.get("current_price"), o.attrs["price"])
         if case.reaction is not None and len(fills) - 1 == case.reaction[0]:
-            ro = W.make_order(repo, "REACT", buy, limit, R.atom("qr"), R.atom(case.reaction[1]), status=st_active)
-            # what Sandbox.limit_order -> store.orders.add_order does
-            it.call(it.getattr(orders_state, "add_order"), [ro], {})
-            it.event("reaction_submitted", ro.name)
+            names = case.reaction[1] if isinstance(case.reaction[1], (list, tuple)) else [case.reaction[1]]
+            for j, rn in enumerate(names):
+                ro = W.make_order(repo, "REACT" if j == 0 else f"REACT{j + 1}", buy, limit, R.atom("qr"), R.atom(rn), status=st_active)
+                # what Sandbox.limit_order -> store.orders.add_order does
+                it.call(it.getattr(orders_state, "add_order"), [ro], {})
+                it.event("reaction_submitted", ro.name)
 
     if not real_liquidation:
         W.bind(position, "_on_executed_order", on_executed)
